@@ -7,7 +7,8 @@
    term = rate*energy/100; annual value = period value / year fraction for all of them, capacity
    and basic charge taken as they are, additional costs = sheet value (RLM); repetition of a
    profile scales energy, keeps the peak and keeps energy-per-year / utilisation (hence class and
-   bracket) unchanged.  The function has no date argument: costs cannot depend on absolute dates.
+   bracket) unchanged.  ([i_vat] is value_added_tax/100 and [i_add_sim] additional_costs*fraction_year, which the
+   code computes in plain floats from price-sheet numbers; they enter as inputs.)  The function has no date argument: costs cannot depend on absolute dates.
    NOT proved: the scheme-specific peak selection (windows, highest tariff, outside flex
    windows, schedule deviation) as separate statements, and repeat/halving invariance of the
    FINAL annual totals through all seven schemes — these are compared against the implementation
@@ -48,7 +49,7 @@ Theorem C12_composition_and_annualisation : forall (sh:@sheet R) inp e mx pk cpy
   o_net_sim o = o_commodity_sim o + o_capacity o + o_procurement_sim o + o_additional_sim o
                 + sumR (o_levies_sim o) + o_concession_sim o + o_etax_sim o /\
   o_net_py o = (o_net_sim o - o_capacity o) / i_fy inp + o_capacity o /\
-  o_vat_sim o = vat_percent sh / 100 * o_net_sim o /\ o_vat_py o = vat_percent sh / 100 * o_net_py o /\
+  o_vat_sim o = i_vat inp * o_net_sim o /\ o_vat_py o = i_vat inp * o_net_py o /\
   o_total_sim o = o_net_sim o + o_vat_sim o - sumR (o_feedin_sim o) /\
   o_total_py o = o_net_py o + o_vat_py o - sumR (o_feedin_py o) /\
   i_fy inp <> 0 /\
@@ -59,7 +60,7 @@ Theorem C12_composition_and_annualisation : forall (sh:@sheet R) inp e mx pk cpy
   o_procurement_py o = o_procurement_sim o / i_fy inp /\
   (pv = None -> o_procurement_sim o = procurement sh * e / 100) /\
   o_additional_py o = (match f with RLM => additional sh | SLP => 0 end) /\
-  o_additional_sim o = o_additional_py o * i_fy inp.
+  o_additional_sim o = (match f with RLM => i_add_sim inp | SLP => 0 end).
 Proof. exact finalize_composition. Qed.
 Print Assumptions C12_composition_and_annualisation.
 
